@@ -65,6 +65,7 @@ type Obligation struct {
 	Detail  string
 	cmdIdx  int
 	blk      int
+	NoAssume bool        // never assumed by later obligations (e.g. a detached contract clause)
 	MustFail bool        // vacuity guard: this formula must NOT be provable
 	Houdini *houdiniCand // non-nil: candidate invariant check, failure drops the candidate silently
 
@@ -136,11 +137,13 @@ type Sess struct {
 	reachTo map[int]map[int]bool
 	namePrefix string
 	nInline int
+	inlineStack []*ssa.Function
 	inlined map[string]bool
 	inlineDepth int
 	mapIters map[*ssa.Range]*mapIter
 	absStr bool
 	epochTop map[string]string
+	epochPrev map[string][]epochPred // the states a heap epoch was started from
 	axioms []string
 	edgeDead map[[2]int]bool // path mode: edges (from,to block index) not on the path
 	axiomsUsed []string
@@ -192,12 +195,40 @@ func (s *Sess) posOf(p token.Pos) string {
 }
 
 func (s *Sess) oblige(st *State, kind, name, formula string, pos token.Pos, detail string) *Obligation {
+	if s.inlineDepth > 0 {
+		top := s.inlineStack[len(s.inlineStack)-1]
+		if kind != "pre" {
+			// the callee's own safety obligations belong to the callee (checked when it is itself a
+			// target, otherwise it is listed among the inlined, unchecked callees); here they are
+			// assumed, exactly as they were when the call was havoced
+			s.assumeAt(st, formula)
+			s.inlined[top.String()] = true
+			return &Obligation{Name: "inlined", Kind: kind, Formula: "true", Status: "unsat"}
+		}
+		name = "inl:" + shortName(s.eng.fnShort(top)) + "." + name
+	}
 	ob := &Obligation{Name: s.eng.fnShort(s.fn) + "#" + name, Kind: kind, Formula: implies(st.reach, formula), Pos: s.posOf(pos), Detail: detail}
 	ob.cmdIdx = len(s.cmds)
 	ob.blk = s.curBlk
 	s.cmds = append(s.cmds, Cmd{'o', "", ob, s.curBlk})
 	s.obs = append(s.obs, ob)
 	return ob
+}
+
+// detached: a contract clause no longer applies to the code (a name it mentions is gone, a call it
+// is attached to no longer exists). The property can then not be shown for this function: reported
+// as a failed obligation, never silently skipped.
+func (s *Sess) detached(f string, a ...any) {
+	m := fmt.Sprintf(f, a...)
+	for _, ob := range s.obs {
+		if ob.Kind == "contract" && ob.Detail == m {
+			return
+		}
+	}
+	ob := &Obligation{Name: s.eng.fnShort(s.fn) + "#contract.detached", Kind: "contract", Formula: "false", Pos: s.posOf(s.fn.Pos()), Detail: m, blk: -1, NoAssume: true}
+	ob.cmdIdx = len(s.cmds)
+	s.cmds = append(s.cmds, Cmd{'o', "", ob, -1})
+	s.obs = append(s.obs, ob)
 }
 
 func (s *Sess) unsupp(f string, a ...any) {
@@ -222,6 +253,18 @@ func (s *Sess) global(f func()) {
 	s.curBlk = saved
 }
 
+// epochPred is a state from which a heap epoch was started: by a havoc of everything (one
+// predecessor; write-once fields of objects below top keep their contents unless the havoc writes
+// them explicitly) or by a join of different epochs (one predecessor per incoming edge; the new
+// region equals the predecessor's under its edge condition).
+type epochPred struct {
+	cond   string // "" for a havoc
+	heap   map[string]string
+	base   string
+	top    string
+	except map[string]bool
+}
+
 func (s *Sess) baseTerm(base, key, sort string) string {
 	if base == "" {
 		base = "H0"
@@ -240,6 +283,24 @@ func (s *Sess) baseTerm(base, key, sort string) string {
 			top = "top0"
 		}
 		s.wfRegion(n, key, top)
+		for _, pr := range s.epochPrev[base] {
+			s.curBlk = -1
+			if pr.cond == "" && (!s.eng.immutable[key] || pr.except[key]) {
+				continue
+			}
+			prior, ok := pr.heap[key]
+			if !ok {
+				prior = s.baseTerm(pr.base, key, sort)
+			}
+			s.curBlk = -1
+			if pr.cond != "" {
+				s.assume(fmt.Sprintf("(=> %s (= %s %s))", pr.cond, n, prior))
+				continue
+			}
+			hf := s.fresh("Hf:"+key, sort)
+			s.cmds = append(s.cmds, Cmd{'a', fmt.Sprintf("(assert (forall ((o Int)) (! (=> (< o %s) (= (select %s o) (select %s o))) :pattern ((select %s o))))) ;@lambda (assert (= %s (lambda ((o Int)) (ite (< o %s) (select %s o) (select %s o)))))",
+				pr.top, n, prior, n, n, pr.top, prior, hf), nil, -1})
+		}
 		s.curBlk = blk
 	}
 	return n
@@ -781,6 +842,30 @@ func (s *Sess) mergeStates(b *ssa.BasicBlock, preds []*ssa.BasicBlock) *State {
 	}
 	st := &State{heap: map[string]string{}, base: sts[0].base}
 	st.reach = s.define(fmt.Sprintf("r:b%d", b.Index), "Bool", or(conds...))
+	ite := func(terms []string) string {
+		r := terms[len(terms)-1]
+		for i := len(terms) - 2; i >= 0; i-- {
+			if terms[i] != r {
+				r = fmt.Sprintf("(ite %s %s %s)", conds[i], terms[i], r)
+			}
+		}
+		return r
+	}
+	{
+		var tops []string
+		same := true
+		for _, x := range sts {
+			tops = append(tops, x.top)
+			if x.top != tops[0] {
+				same = false
+			}
+		}
+		if same {
+			st.top = tops[0]
+		} else {
+			st.top = s.define("top", "Int", ite(tops))
+		}
+	}
 	keys := map[string]bool{}
 	for _, x := range sts {
 		for k := range x.heap {
@@ -794,16 +879,13 @@ func (s *Sess) mergeStates(b *ssa.BasicBlock, preds []*ssa.BasicBlock) *State {
 			}
 			s.nfresh++
 			st.base = fmt.Sprintf("Hj%d", s.nfresh)
-		}
-	}
-	ite := func(terms []string) string {
-		r := terms[len(terms)-1]
-		for i := len(terms) - 2; i >= 0; i-- {
-			if terms[i] != r {
-				r = fmt.Sprintf("(ite %s %s %s)", conds[i], terms[i], r)
+			s.epochTop[st.base] = st.top
+			var preds []epochPred
+			for i, y := range sts {
+				preds = append(preds, epochPred{cond: conds[i], heap: y.heap, base: y.base})
 			}
+			s.epochPrev[st.base] = preds
 		}
-		return r
 	}
 	for _, k := range sortedKeys(keys) {
 		var terms []string
@@ -825,19 +907,6 @@ func (s *Sess) mergeStates(b *ssa.BasicBlock, preds []*ssa.BasicBlock) *State {
 			continue
 		}
 		st.heap[k] = s.define("Hm:"+k, s.regionSort[k], ite(terms))
-	}
-	var tops []string
-	same := true
-	for _, x := range sts {
-		tops = append(tops, x.top)
-		if x.top != tops[0] {
-			same = false
-		}
-	}
-	if same {
-		st.top = tops[0]
-	} else {
-		st.top = s.define("top", "Int", ite(tops))
 	}
 	return st
 }
@@ -863,6 +932,7 @@ func (s *Sess) run() {
 	s.inlined = map[string]bool{}
 	s.mapIters = map[*ssa.Range]*mapIter{}
 	s.epochTop = map[string]string{}
+	s.epochPrev = map[string][]epochPred{}
 	s.tc = newTypeCtx(s.emitDecl)
 	s.emitDecl("(declare-const top0 Int)")
 	s.assume("(< 0 top0)")
@@ -934,7 +1004,7 @@ func (s *Sess) run() {
 			ce := s.funcEnv(entry, entry, nil)
 			v, err := ce.evalAssume(c.E)
 			if err != nil {
-				s.unsupp("requires %q: %v", c.Src, err)
+				s.detached("requires %q: %v", c.Src, err)
 				continue
 			}
 			s.assume(v)
@@ -962,7 +1032,7 @@ func (s *Sess) run() {
 	if s.ct != nil {
 		for _, a := range s.ct.Asserts {
 			if !a.seen {
-				s.unsupp("assert at %s#%d: no such call in the function", a.Callee, a.Ord)
+				s.detached("assert at %s#%d: no such call in the function", a.Callee, a.Ord)
 			}
 		}
 	}
@@ -1022,7 +1092,7 @@ func (s *Sess) finish() {
 				label = fmt.Sprintf("%d", i)
 			}
 			if err != nil {
-				s.unsupp("ensures %q: %v", c.Src, err)
+				s.detached("ensures %q: %v", c.Src, err)
 				continue
 			}
 			s.oblige(r.st, "post", "post."+label, f, r.pos, c.Src)
